@@ -8,9 +8,10 @@ The theorems say: reader ∘ writer = identity, for *all* lexical forms (every U
 value) and all well-formed labels / tags / IRIs; the output is one statement per line.
 -/
 import SophiaProofs.Lemmas.NTLang
+import SophiaProofs.Lemmas.NTBytes
 
 namespace SophiaProofs.C03
-open SophiaModel SophiaModel.NT SophiaProofs.NTL SophiaModel.Re
+open SophiaModel SophiaModel.NT SophiaProofs.NTL SophiaProofs.NTB SophiaModel.Re
 
 /-! ## escaping -/
 
@@ -22,6 +23,13 @@ theorem unescape_quoted : ∀ s : Str, unescape (quotedString s) = some s := by
 whatever follows -/
 theorem read_quoted_string (s r : Str) : readStrBody (quotedString s ++ '"' :: r) = some (s, r) :=
   read_quoted s r
+
+/-- **the generated escape table has the shape every theorem below rests on** (decided on the
+table `tools/extractors/c03.py` regenerates from `quoted_string`, so an edit of the source that
+breaks it fails this obligation by name): every arm writes a backslash and the ECHAR code of the
+byte it replaces; `"`, `\`, LF, CR are cut bytes; every cut byte has an arm (`tableOk`,
+`tableOkB` for the byte loop); every cut byte and every written byte is ASCII (`tableAscii`) -/
+theorem escape_table_ok : tableOk = true ∧ tableAscii = true ∧ tableOkB = true := by decide
 
 /-- the `unreachable!()` arm of `quoted_string` is dead: every cut byte has an arm -/
 theorem quoted_no_panic : ∀ s : Str, quotedPanics s = false := by
@@ -40,6 +48,30 @@ theorem quoted_rs_eq : ∀ s : Str, quotedStringRs s = some (quotedString s) := 
 /-- the loop invariant itself: whatever was already written stays, the rest is appended -/
 theorem quoted_loop_inv (w s : Str) : quotedLoop (s.length + 1) w s = some (w ++ quotedString s) :=
   quotedLoop_eq _ w s (Nat.lt_succ_self _)
+
+/-! ## bytes: `quoted_string` works on `lexical_form().as_bytes()` -/
+
+/-- **the byte loop of the source, run on the UTF-8 encoding of any text, writes the UTF-8
+encoding of `quotedString` of that text**: a cut never splits a multi-byte sequence, no
+continuation byte is taken for a cut byte, the arms write the same ASCII bytes.  (This was a
+modelling assumption; `utf8` is Lean's `String.utf8EncodeChar`.) -/
+theorem quoted_bytes_eq : ∀ s : Str, quotedBytesRs (utf8 s) = some (utf8 (quotedString s)) := by
+  intro s
+  rw [quotedBytesRs, quotedLoopB_eq _ [] (utf8 s) (Nat.lt_succ_self _), List.nil_append, quotedB_utf8]
+
+/-- `utf8` is what `String.toUTF8` yields, i.e. the bytes the driver prints and the differential
+compares with the serializer's -/
+theorem utf8_is_toUTF8 : ∀ s : Str, (String.ofList s).toUTF8.data.toList = utf8 s := utf8_toUTF8
+
+/-- the byte-level `unreachable!()` is dead as well -/
+theorem quoted_bytes_no_panic : ∀ bs : Bytes, (quotedBytesRs bs).isSome = true := by
+  intro bs; rw [quotedBytesRs, quotedLoopB_eq _ [] bs (Nat.lt_succ_self _)]; rfl
+
+/-- and unescaping is inverse at the byte level: the reader applied to the decoded output of the
+byte loop gives back the text (composition of `quoted_bytes_eq` and `unescape_quoted`) -/
+theorem unescape_quoted_bytes (s : Str) :
+    ∃ out, quotedBytesRs (utf8 s) = some (utf8 out) ∧ unescape out = some s :=
+  ⟨quotedString s, quoted_bytes_eq s, unescape_quoted s⟩
 
 /-- a text in which `"`, LF, CR never occur raw and every `\` starts an ECHAR -/
 def cleanAux : Bool → Str → Bool
@@ -90,6 +122,38 @@ theorem one_line (q : Quad) (hq : quadOk q = true) :
     rcases List.mem_append.1 h with h | h
     · exact (hb _ h).2 rfl
     · simp at h
+
+/-- **a written document has exactly one line per statement**: as many LF as quads, no CR, and
+(unless empty) it ends with LF -/
+theorem doc_lines (d : List Quad) (hd : ∀ q ∈ d, quadOk q = true) :
+    (writeDoc d).count '\n' = d.length ∧ '\r' ∉ writeDoc d ∧ (d ≠ [] → (writeDoc d).getLast? = some '\n') := by
+  induction d with
+  | nil => simp [writeDoc]
+  | cons q d ih =>
+    obtain ⟨h1, h2, h3⟩ := one_line q (hd q (by simp))
+    obtain ⟨i1, i2, _⟩ := ih (fun q' h => hd q' (by simp [h]))
+    have e : writeDoc (q :: d) = writeQuad q ++ writeDoc d := by simp [writeDoc]
+    refine ⟨?_, ?_, ?_⟩
+    · rw [e, List.count_append, h1, i1]; simp; omega
+    · rw [e]; intro h
+      rcases List.mem_append.1 h with h | h
+      · exact h3 h
+      · exact i2 h
+    · intro _
+      rw [e]
+      cases hd' : d with
+      | nil => simpa [writeDoc] using h2
+      | cons q' d' =>
+        obtain ⟨_, _, i3⟩ := ih (fun q'' h => hd q'' (by simp [h]))
+        rw [hd'] at i3
+        rw [List.getLast?_append, i3 (by simp)]; rfl
+
+/-- **each line is a complete statement of its own**: the line written for a quad (without its
+LF) is read, by itself, as that quad — by the N-Quads reader, and by the N-Triples reader when
+the quad is in the default graph -/
+theorem each_line_reads (nq : Bool) (q : Quad) (hq : quadOk q = true) (hnq : q.g ≠ none → nq = true) :
+    ∃ line, writeQuad q = line ++ ['\n'] ∧ readLine nq line = some (some q) :=
+  ⟨quadBody q ++ ['.'], by rw [writeQuad_eq]; simp, read_write_line nq q hq hnq⟩
 
 /-! ## reader ∘ writer = identity -/
 
@@ -234,6 +298,11 @@ example : unescape (quotedString "a\"b\\c\nd\r".toList) = some "a\"b\\c\nd\r".to
 -- a text ending in each escapable character keeps it (the end test comes after the escape arm)
 example : quotedStringRs "a\n".toList = some "a\\n".toList ∧ quotedStringRs "\r".toList = some "\\r".toList ∧
     quotedStringRs "\"".toList = some "\\\"".toList ∧ quotedStringRs "x\\".toList = some "x\\\\".toList := by decide
+-- bytes: a text with 1-, 2-, 3- and 4-byte characters around every escapable one
+example : quotedBytesRs (utf8 "é\n€\"😀\\\r".toList) = some (utf8 "é\\n€\\\"😀\\\\\\r".toList) := quoted_bytes_eq _
+example : utf8 "é\n😀".toList = [0xC3, 0xA9, 0x0A, 0xF0, 0x9F, 0x98, 0x80] := by decide
+example : (writeDoc [sampleQuad, sampleQuad]).count '\n' = 2 :=
+  (doc_lines _ (by intro q h; simp at h; subst h; decide)).1
 example : delim ".\n".toList = true ∧ delim " <g>.".toList = true ∧ delim ">> .".toList = true := by decide
 -- the reader is not the trivial one: it rejects what the grammar rejects
 example : unescape "a\"b".toList = none := by decide
